@@ -410,3 +410,188 @@ def mon_weaker_hash(rr):
         if b == t["other"]:
             out.append(Failure("wrong_bytes", len(rr.impl) - 1, f"a checked copy left the other entry's bytes at {p}", sig={"op": "copy"}))
     return out
+
+
+# ---------------------------------------------------------------------------------------------
+# a declared integrity without any hash
+# ---------------------------------------------------------------------------------------------
+
+def gen_empty_declaration_programs():
+    """`WriteOpts::integrity` given an `Integrity` with NO hash (the empty string and blank strings parse to one): the data
+    cannot satisfy it - the commit is rejected with the integrity error and no lookup changes (keyed and by address,
+    both flavours, with and without an earlier value of the key)."""
+    progs = []
+    i = 0
+    for fl in "sa":
+        for key in (b"ed", None):
+            for decl in ("", " ", "\t \n"):
+                for prior in (True, False):
+                    if key is None and prior:
+                        continue
+                    ops = [w_oneshot("s", "sha256", b"bystander", b"stays")]
+                    if prior:
+                        ops.append(w_oneshot("a", "sha256", key, b"the earlier value"))
+                    k = hx(key) if key else "-"
+                    if key:
+                        ops.append(f"metadata s c0 {k}")
+                    before = len(ops) - 1
+                    ops += [f"wopen {fl} c0 W1 {k} " + opts_tokens("sha256", None, decl, 5, NOMETA, None), f"wwrite W1 {hx(b'new data')}", "wcommit W1"]
+                    ci = len(ops) - 1
+                    if key:
+                        ops += [f"metadata s c0 {k}", f"metadata a c0 {k}"]
+                    ops += ["list c0", "dump c0/tmp"]
+                    progs.append(Program(f"empty-declaration-{fl}-{'keyed' if key else 'byaddr'}-{i}", ops,
+                                         tags={"emptydecl": ci, "before": before if key else None, "both_binaries": i % 3 == 0,
+                                               "variety": ("emptydecl", fl, key is None, decl, prior)}))
+                    i += 1
+    return progs
+
+
+def mon_empty_declaration(rr):
+    out = []
+    t = rr.prog.tags
+    ci = t["emptydecl"]
+    if len(rr.impl) < len(rr.prog.ops):
+        return out
+    commit = toks(rr.impl[ci])
+    sig = {"op": "wcommit", "api": rr.prog.ops[ci - 2].split(" ")[1], "keyed": t["before"] is not None}
+    if commit[0] == "ok":
+        out.append(Failure("accepted_wrong_integrity", ci, "a commit with a declared integrity that names no hash at all answered ok", sig=sig))
+    if t["before"] is not None:
+        for j in (ci + 1, ci + 2):
+            if norm(rr.impl[j]).split(" time=")[0] != norm(rr.impl[t["before"]]).split(" time=")[0] or norm(rr.impl[j]) != norm(rr.impl[t["before"]]):
+                out.append(Failure("rejected_commit_changed_lookup", j, f"after the rejected commit the lookup answers {norm(rr.impl[j])[:60]}", sig=sig))
+    if norm(rr.impl[-1]) != "ok":
+        out.append(Failure("tmp_left", len(rr.impl) - 1, "temp file left behind by the rejected commit", sig=sig))
+    return out
+
+
+# ---------------------------------------------------------------------------------------------
+# removing a linked entry whose target is gone
+# ---------------------------------------------------------------------------------------------
+
+def gen_dangling_link_removal_programs():
+    """A `link_to` entry whose target file has been deleted meanwhile (the content path is a DANGLING symlink): a full
+    removal / a removal by address still takes the cache's own name away - the link - so that the address does not come
+    back to life when a file reappears at the old target path."""
+    progs = []
+    d = b"a target that goes away"
+    st = sri_tok("sha256", d)
+    for fl in "sa":
+        for how in ("remove_fully", "remove_hash"):
+            key = b"dangling-" + how.encode()
+            ops = [f"put tgt/gone.bin {hx(d)}", f"link_to {fl} c0 {hx(key)} abs:tgt/gone.bin", f"read {fl} c0 {hx(key)}", "del tgt/gone.bin",
+                   (f"remove_fully {fl} c0 {hx(key)}" if how == "remove_fully" else f"remove_hash {fl} c0 {st}")]
+            ri = len(ops) - 1
+            ops += ["dump c0/content-v2", f"put tgt/gone.bin {hx(d)}", f"exists {fl} c0 {st}", f"read_hash {fl} c0 {st}", f"metadata {fl} c0 {hx(key)}"]
+            progs.append(Program(f"dangling-{how}-{fl}", ops, tags={"dangling": ri, "how": how, "variety": ("dangling", how, fl)}))
+    return progs
+
+
+def mon_dangling_link_removal(rr):
+    out = []
+    t = rr.prog.tags
+    ri = t["dangling"]
+    if len(rr.impl) < len(rr.prog.ops):
+        return out
+    sig = {"op": t["how"], "api": rr.prog.ops[ri].split(" ")[1]}
+    res = toks(rr.impl[ri])
+    files, links, dirs = parse_dump(rr.impl[ri + 1])
+    if res[0] == "ok" and (links or files):
+        out.append(Failure("removal_left_content", ri + 1, f"{t['how']} answered ok but the content area still holds {sorted(list(links) + list(files))[:1]}",
+                           sig=sig))
+    if res[0] == "ok" and norm(rr.impl[ri + 3]) != "ok false":
+        out.append(Failure("removed_address_alive", ri + 3, f"after {t['how']} answered ok, and a file reappeared at the old target path, the address "
+                           f"exists again: {norm(rr.impl[ri + 3])[:30]}", sig=sig))
+    if res[0] == "ok" and toks(rr.impl[ri + 4])[0] == "ok":
+        out.append(Failure("removed_address_alive", ri + 4, "a removed address is readable again", sig=sig))
+    if t["how"] == "remove_fully" and res[0] == "ok" and meta_of_line(rr.impl[ri + 5]) is not None:
+        out.append(Failure("removed_key_found", ri + 5, "the fully removed key is still found", sig=sig))
+    return out
+
+
+# ---------------------------------------------------------------------------------------------
+# a bucket file that is a symbolic link
+# ---------------------------------------------------------------------------------------------
+
+def gen_linked_bucket_programs():
+    """A cache whose bucket file is a symbolic link to a file kept elsewhere (a cache seeded as a link farm, a bucket moved
+    to another disk and linked back): lookups follow the link - and so does the listing; what is listed is what the
+    lookups find."""
+    progs = []
+    for variant, target in (("abs", "abs:far/b"), ("rel", "rel:../../../../far/b")):
+        key = "linkedbucket-" + variant
+        k2 = "plain"
+        A = (key, L.sri_of("sha256", b"bucket behind a link"), 1, 20, {"v": variant}, None)
+        T2 = (key, L.sri_of("sha256", b"bucket behind a link"), 2, 20, None, None)
+        ops = [f"put far/b {hx(rec_frame(A) + rec_frame(T2))}", f"symlink {bucket_path(key.encode())} {target}",
+               f"write_hash s c0 sha256 {hx(b'bucket behind a link')}", w_oneshot("a", "sha256", k2.encode(), b"a plain entry")]
+        steps = []
+        for fl in "sa":
+            for k in (key, k2):
+                ops.append(f"metadata {fl} c0 {hx(k.encode())}"); steps.append((len(ops) - 1, "meta", k.encode(), None, None))
+            ops.append("list c0"); steps.append((len(ops) - 1, "list", None, None, None))
+        ops.append(f"read s c0 {hx(key.encode())}")
+        progs.append(Program(f"linked-bucket-{variant}", ops, tags={"steps": steps, "listing_only": True, "linkedbucket": True,
+                                                                    "variety": ("linked-bucket", variant)}))
+    return progs
+
+
+def mon_linked_bucket(rr):
+    from .props import mon_list_agrees_with_lookup
+    out = mon_list_agrees_with_lookup(rr)
+    for (i, kind, k, _, _) in rr.prog.tags["steps"]:
+        if kind == "meta" and i < len(rr.impl) and not norm(rr.impl[i]).startswith("ok meta "):
+            out.append(Failure("lookup_through_linked_bucket", i, f"the lookup of {k!r} answers {norm(rr.impl[i])[:40]}", sig={"op": "metadata"}))
+        if kind == "list" and i < len(rr.impl):
+            items = list_items(rr.impl[i])
+            if items is None or len(items) != 2:
+                out.append(Failure("list_omits_linked_bucket", i, f"the listing has {None if items is None else len(items)} items; two keys are live "
+                                   "(one of them in a bucket file that is a symbolic link)", sig={"op": "list"}))
+    return out
+
+
+# ---------------------------------------------------------------------------------------------
+# linking from a working directory that no longer exists
+# ---------------------------------------------------------------------------------------------
+
+def gen_gone_cwd_link_programs():
+    """'from any working directory': the process sits in a directory that has been removed; cache and target are given by
+    ABSOLUTE paths, so the link is made all the same, reads back, and the target is untouched."""
+    progs = []
+    d = b"linked from a vanished working directory"
+    for fl in "sa":
+        key = b"gonecwd-" + fl.encode()
+        ops = [f"put tgt/file.bin {hx(d)}", f"link_to_gone {fl} c0 {hx(key)} abs:tgt/file.bin"]
+        li = 1
+        ops += [f"read s c0 {hx(key)}", f"read a c0 {hx(key)}", f"metadata {fl} c0 {hx(key)}", "cat tgt/file.bin",
+                f"stat {content_path('sha256', d)}", "dump c0/tmp"]
+        progs.append(Program(f"gone-cwd-link-{fl}", ops, tags={"gonecwd": li, "data": d, "both_binaries": True, "variety": ("gone-cwd", fl)}))
+    return progs
+
+
+def mon_gone_cwd_link(rr):
+    out = []
+    t = rr.prog.tags
+    li, d = t["gonecwd"], t["data"]
+    if len(rr.impl) < len(rr.prog.ops):
+        return out
+    sig = {"op": "link_to", "api": rr.prog.ops[li].split(" ")[1]}
+    res = toks(rr.impl[li])
+    if res[0] != "ok":
+        out.append(Failure("link_failed", li, f"linking an existing file by absolute path from a working directory that was removed -> "
+                           f"{' '.join(res[:3])}", sig=sig))
+        return out
+    for j in (li + 1, li + 2):
+        rd = toks(rr.impl[j])
+        if rd[0] != "ok" or unhx(rd[1]) != d:
+            out.append(Failure("wrong_bytes", j, f"the linked key reads {' '.join(rd[:2])[:40]}", sig=sig))
+    m = meta_of_line(rr.impl[li + 3])
+    if not isinstance(m, dict) or m.get("size") != len(d):
+        out.append(Failure("wrong_size_recorded", li + 3, "the linked entry does not record the target's true size", sig=sig))
+    cat = toks(rr.impl[li + 4])
+    if cat[0] != "ok" or unhx(cat[1]) != d:
+        out.append(Failure("target_touched", li + 4, "the link target changed", sig=sig))
+    if norm(rr.impl[li + 5]) != "ok symlink":
+        out.append(Failure("copied_instead_of_linked", li + 5, f"the content path is {norm(rr.impl[li + 5])[:30]}, not a symbolic link", sig=sig))
+    return out
